@@ -1,8 +1,9 @@
 (** * RsExpr: the few list/integer helpers the expression translator [tools/rsexpr.py] renders Rust iterator
     expressions into.  No proofs in this file. *)
-From Coq Require Import ZArith List.
-From Compute Require Import Base.Ops.
+From Coq Require Import ZArith QArith List Bool Floats.
+From Compute Require Import Base.Ops Base.ListMat.
 Import ListNotations.
+Local Close Scope Q_scope.
 
 (** [lo, lo+1, ..., lo+len-1] *)
 Fixpoint rs_seq (lo : Z) (len : nat) : list Z :=
@@ -22,3 +23,82 @@ Fixpoint rs_fold_enum_from {A B : Type} (f : B -> nat -> A -> B) (idx : nat) (l 
   end.
 Definition rs_fold_enum {A B : Type} (f : B -> nat -> A -> B) (l : list A) (acc : B) : B :=
   rs_fold_enum_from f 0 l acc.
+
+(** ** Loops, slices and iterator chains (statement-level translator, [LoopTranslator] of tools/rsexpr.py).
+    Slices and vectors are lists, indices and lengths live in [Z], a panic is [None]. *)
+
+(** the half-open range [a .. b] (empty when [b <= a]) *)
+Definition rs_range_excl (a b : Z) : list Z := rs_seq a (Z.to_nat (b - a)%Z).
+
+(** [x.len()] *)
+Definition rs_len {A : Type} (l : list A) : Z := Z.of_nat (length l).
+
+(** unsigned subtraction as the release build computes it: wraps modulo 2^64 (a debug build panics instead) *)
+Definition rs_usub (a b : Z) : Z := if (b <=? a)%Z then (a - b)%Z else (a - b + 18446744073709551616)%Z.
+(** integer [/] and [%]: truncating; a zero divisor panics *)
+Definition rs_idiv (a b : Z) : option Z := if (b =? 0)%Z then None else Some (Z.quot a b).
+Definition rs_irem (a b : Z) : option Z := if (b =? 0)%Z then None else Some (Z.rem a b).
+
+(** [x[i]]: out of bounds panics *)
+Definition rs_get {A : Type} (l : list A) (i : Z) : option A :=
+  if (i <? 0)%Z then None else nth_error l (Z.to_nat i).
+(** [x[i] = v] *)
+Definition rs_set {A : Type} (l : list A) (i : Z) (v : A) : option (list A) :=
+  if (i <? 0)%Z then None else if (Z.to_nat i <? length l)%nat then Some (upd l (Z.to_nat i) v) else None.
+(** [&x[a..b]], [&x[a..]], [&x[..b]]: panics unless [a <= b <= len] *)
+Definition rs_slice {A : Type} (l : list A) (a b : Z) : option (list A) :=
+  if ((0 <=? a) && (a <=? b) && (b <=? rs_len l))%Z
+  then Some (firstn (Z.to_nat (b - a)) (skipn (Z.to_nat a) l)) else None.
+Definition rs_slice_from {A : Type} (l : list A) (a : Z) : option (list A) := rs_slice l a (rs_len l).
+Definition rs_slice_to {A : Type} (l : list A) (b : Z) : option (list A) := rs_slice l 0%Z b.
+
+(** [vec![c; n]] *)
+Definition rs_vec_rep {A : Type} (c : A) (n : Z) : list A := repeat c (Z.to_nat n).
+(** ... as the allocation checks it: more than [isize::MAX] bytes of 8-byte elements is the panic "capacity overflow" *)
+Definition rs_vec_alloc {A : Type} (c : A) (n : Z) : option (list A) :=
+  if (n <=? 1152921504606846975)%Z then Some (repeat c (Z.to_nat n)) else None.
+(** [.iter().enumerate()] *)
+Definition rs_enumerate {A : Type} (l : list A) : list (Z * A) := combine (rs_seq 0%Z (length l)) l.
+(** [.take(n)], [.skip(n)] *)
+Definition rs_take {A : Type} (l : list A) (n : Z) : list A := firstn (Z.to_nat n) l.
+Definition rs_skip {A : Type} (l : list A) (n : Z) : list A := skipn (Z.to_nat n) l.
+
+(** a loop whose body can panic: left fold in the option monad *)
+Fixpoint rs_fold_opt {A S : Type} (f : S -> A -> option S) (l : list A) (s : S) : option S :=
+  match l with
+  | [] => Some s
+  | a :: l' => match f s a with Some s' => rs_fold_opt f l' s' | None => None end
+  end.
+(** [.map(|x| e)] with a closure that can panic *)
+Fixpoint rs_map_opt {A B : Type} (f : A -> option B) (l : list A) : option (list B) :=
+  match l with
+  | [] => Some []
+  | a :: l' => match f a with
+               | Some b => match rs_map_opt f l' with Some bs => Some (b :: bs) | None => None end
+               | None => None
+               end
+  end.
+
+(** a loop with [break] / [return]: what one pass through the body does *)
+Inductive rs_flow (S R : Type) : Type :=
+| rs_next (s : S)        (* end of the body / [continue] *)
+| rs_break (s : S)
+| rs_return (r : R)
+| rs_panic.
+Arguments rs_next {S R} s. Arguments rs_break {S R} s. Arguments rs_return {S R} r. Arguments rs_panic {S R}.
+Fixpoint rs_loop {A S R : Type} (f : S -> A -> rs_flow S R) (l : list A) (s : S) : rs_flow S R :=
+  match l with
+  | [] => rs_next s
+  | a :: l' => match f s a with rs_next s' => rs_loop f l' s' | other => other end
+  end.
+
+(** [Iterator::product::<f64>()]: a left fold from 1.0 *)
+Definition rs_iter_product {T : Type} (O : Ops T) (l : list T) : T := fold_left (mul O) l (one O).
+
+(** the constants [f64::NAN], [f64::MAX], [f64::MIN], [f64::INFINITY], [f64::NEG_INFINITY] *)
+Definition rs_f64_max_q : Q := inject_Z (9007199254740991 * 2 ^ 971).
+Definition rs_f64_nan {T : Type} (O : Ops T) : T := ofLit O (0%Q, PrimFloat.nan).
+Definition rs_f64_max {T : Type} (O : Ops T) : T := ofLit O (rs_f64_max_q, 0x1.fffffffffffffp+1023%float).
+Definition rs_f64_min {T : Type} (O : Ops T) : T := ofLit O (Qopp rs_f64_max_q, (-0x1.fffffffffffffp+1023)%float).
+Definition rs_f64_infinity {T : Type} (O : Ops T) : T := div O (one O) (zero O).
+Definition rs_f64_neg_infinity {T : Type} (O : Ops T) : T := neg O (div O (one O) (zero O)).
